@@ -1,15 +1,70 @@
 import DarkluaModel.Rules.EmptyDo
 import DarkluaModel.Shared.VisitorSound
+import DarkluaModel.Rules.UnusedWhile
+import DarkluaModel.Rules.FilterEarlyReturn
+import DarkluaModel.Rules.MethodDef
+import DarkluaModel.Rules.CallParens
+import DarkluaModel.Rules.Trivia
+import DarkluaModel.Rules.ConvertIndexToField
+import DarkluaModel.Rules.ComputeExpression
+import DarkluaModel.Rules.NilDeclaration
+import DarkluaModel.Rules.EvalLitSound
+import DarkluaModel.Rules.Witness
+import DarkluaModel.Rules.WholeRule
+import DarkluaModel.Rules.UnusedIfBranchSound
+import DarkluaModel.Rules.UnusedIfExprSound
+import DarkluaModel.Rules.UnusedIfBranchWhole
+import DarkluaModel.Rules.ComputeExpressionSound
+import DarkluaModel.Rules.EvalC08Sound
 /-!
 # C01 — default rules preserve program behaviour: property theorems
 
 Reference semantics: `Shared/Sem.lean` (`Sem.execB`, all number systems `N`, all external-call
 oracles `ρ`, all call handlers, all loop/call-back bounds `k`, all environments and states).
 Rule models: `Rules/*.lean`, executed by the driver (`c01.rule`) and compared with the real
-`Rule::process` on every run.
+`Rule::process` on every run. Rules that consult the static evaluator are modelled against
+the interface `Rules.EvalApi`; their theorems assume `Rules.EvalSound N api good` (property
+C08's theorems, relative to the number system `N`) and hold for every such evaluator —
+`Rules.litApi_sound` is a proved instance (for every `N`), `Rules.EvalC08` the instance built from
+the C08 model.
+
+Until the generic visitor lifting theorem (`Shared/VisitorSound.lean`) lands, the theorems are
+the LOCAL ones: each hook rewrites a node into a node with the same denotation.
+`Refines a b`: every error-free run of `a` is a run of `b` with the same outcome and state.
 -/
 namespace DarkluaModel.C01
-open Sem
+open Sem Rules
+
+/-- every error-free run of `a` (any level, oracle, environment, state) is a run of `b` with the
+same control outcome, final state and trace -/
+def Refines (a b : Block) : Prop :=
+  ∀ (N : NumOps) (call : CallFn N) (ρ : ExtOracle N) (k : Nat) (env : Env N) (σ σ' : State N) (c : Ctl N),
+    execB call ρ k env a σ = .ok c σ' → execB call ρ k env b σ = .ok c σ'
+
+/-- the same for one number system `N` (the evaluator contracts are relative to `N`) -/
+def RefinesAt (N : NumOps) (a b : Block) : Prop :=
+  ∀ (call : CallFn N) (ρ : ExtOracle N) (k : Nat) (env : Env N) (σ σ' : State N) (c : Ctl N),
+    execB call ρ k env a σ = .ok c σ' → execB call ρ k env b σ = .ok c σ'
+
+theorem refines_refl (b : Block) : Refines b b := fun _ _ _ _ _ _ _ _ h => h
+
+theorem refines_trans {a b c : Block} (h1 : Refines a b) (h2 : Refines b c) : Refines a c :=
+  fun N call ρ k env σ σ' ctl h => h2 N call ρ k env σ σ' ctl (h1 N call ρ k env σ σ' ctl h)
+
+/-- "any selection of the rules in any order": if every rule of a list refines on every block,
+so does their composition (any subset, any order, repetitions allowed) -/
+theorem pipeline_refines_local (rules : List (Block → Block)) (h : ∀ r ∈ rules, ∀ b, Refines b (r b)) (b : Block) :
+    Refines b (rules.foldl (fun acc r => r acc) b) := by
+  induction rules generalizing b with
+  | nil => exact refines_refl b
+  | cons r rest ih =>
+    simp only [List.foldl]
+    exact refines_trans (h r (by simp) b) (ih (fun r' hr' => h r' (by simp [hr'])) (r b))
+
+example : Refines (.mk [] none) ([id, id].foldl (fun acc r => r acc) (.mk [] none)) :=
+  pipeline_refines_local [id, id] (fun r hr b => by simp at hr; subst hr; exact refines_refl b) _
+
+/-! ### remove_empty_do -/
 
 /-- `remove_empty_do`: the rewrite performed at every block (dropping `do end` statements)
 yields a block with exactly the same denotation — same control outcome, same state, same
@@ -25,6 +80,7 @@ example :
       (.mk [.doBlock (.mk [] none), .callStmt (.call (.var "f") none .tuple [])] none) false).1
       = .mk [.callStmt (.call (.var "f") none .tuple [])] none := by
   simp [Rules.EmptyDo.processBlock, Rules.EmptyDo.filterStmts, Rules.EmptyDo.blockIsEmpty]
+
 
 /-- **Whole rule, every program**: running `remove_empty_do` (all its visitor passes) on ANY block gives
 a program with the same observable outcome — returned values, raised error, external-call trace — at
@@ -58,5 +114,461 @@ example (b : Block) {N : NumOps} (ρ : ExtOracle N) (n : Nat) (externs : List St
     simp at hr
     subst hr
     exact rule_refines_remove_empty_do b ρ n externs) b ρ n externs
+
+/-! ### filter_after_early_return -/
+
+/-- `filter_after_early_return`: truncating a block after the first `do` that certainly
+returns, and dropping its last statement, gives a block with exactly the same denotation. -/
+theorem filter_after_early_return_hook_exact {N : NumOps} (call : CallFn N) (ρ : ExtOracle N) (k : Nat)
+    (env : Env N) (b : Block) (σ : State N) :
+    execB call ρ k env (Rules.FilterEarlyReturn.processBlock b ()).1 σ = execB call ρ k env b σ :=
+  Rules.FilterEarlyReturn.processBlock_sound call ρ k env b σ
+
+example :
+    (Rules.FilterEarlyReturn.processBlock
+      (.mk [.doBlock (.mk [.doBlock (.mk [] (some (.ret [])))] none), .callStmt (.call (.var "f") none .tuple [])]
+        (some (.ret [.nil]))) ()).1
+      = .mk [.doBlock (.mk [.doBlock (.mk [] (some (.ret [])))] none)] none := by
+  simp [Rules.FilterEarlyReturn.processBlock, Rules.FilterEarlyReturn.keepCount, Rules.FilterEarlyReturn.stopsStmt,
+    Rules.FilterEarlyReturn.stops, Rules.FilterEarlyReturn.stopsAny]
+
+/-- **Whole rule, every program**: `filter_after_early_return` preserves the observable outcome
+(returned / raised values, external-call trace) at every call level, oracle, number system. -/
+theorem rule_refines_filter_after_early_return (b : Block) {N : NumOps} (ρ : ExtOracle N) (n : Nat)
+    (externs : List String) :
+    runProgram ρ n externs (Rules.FilterEarlyReturn.apply b) = runProgram ρ n externs b :=
+  Rules.FilterEarlyReturn.apply_refines b ρ n externs
+
+-- non-vacuity: a function whose body has dead code after `do return end` is rewritten
+example : Rules.FilterEarlyReturn.apply
+    (.mk [.localFn .loc "g" (.mk [] false none none [] []
+      (.mk [.doBlock (.mk [] (some (.ret []))), .callStmt (.call (.var "emit") none .tuple [])] none))] none)
+    = .mk [.localFn .loc "g" (.mk [] false none none [] [] (.mk [.doBlock (.mk [] (some (.ret [])))] none))] none := rfl
+
+/-! ### remove_method_definition -/
+
+/-- `remove_method_definition`: `function a.b:m(p…) … end` and `function a.b.m(self, p…) … end`
+have exactly the same denotation. -/
+theorem remove_method_definition_hook_exact {N : NumOps} (call : CallFn N) (ρ : ExtOracle N) (k : Nat)
+    (env : Env N) (s : Stmt) (σ : State N) :
+    execS call ρ k env (Rules.MethodDef.removeMethod s) σ = execS call ρ k env s σ :=
+  Rules.MethodDef.removeMethod_sound call ρ k env s σ
+
+/-- **Whole rule, every program**: `remove_method_definition` preserves the observable outcome. -/
+theorem rule_refines_remove_method_definition (b : Block) {N : NumOps} (ρ : ExtOracle N) (n : Nat)
+    (externs : List String) :
+    runProgram ρ n externs (Rules.MethodDef.apply b) = runProgram ρ n externs b :=
+  Rules.MethodDef.apply_refines b ρ n externs
+
+example :
+    Rules.MethodDef.removeMethod (.function ["a", "b"] (some "m") (.mk [.mk "p" none] false none none [] [] (.mk [] none)))
+      = .function ["a", "b", "m"] none (.mk [.mk "self" none, .mk "p" none] false none none [] [] (.mk [] none)) := rfl
+
+/-! ### remove_function_call_parens, remove_spaces, remove_comments -/
+
+/-- `remove_function_call_parens`: `f("s")` ↦ `f"s"`, `f({…})` ↦ `f{…}` — exactly the same denotation. -/
+theorem remove_function_call_parens_hook_exact {N : NumOps} (call : CallFn N) (ρ : ExtOracle N) (k : Nat)
+    (env : Env N) (e : Expr) (σ : State N) :
+    evalE call ρ k env (Rules.CallParens.processCall e) σ = evalE call ρ k env e σ :=
+  Rules.CallParens.processCall_sound call ρ k env e σ
+
+example : Rules.CallParens.processCall (.call (.var "f") none .tuple [.str [97]]) = .call (.var "f") none .str [.str [97]] := rfl
+
+/-- **Whole rule, every program**: `remove_function_call_parens` preserves the observable outcome. -/
+theorem rule_refines_remove_function_call_parens (b : Block) {N : NumOps} (ρ : ExtOracle N) (n : Nat)
+    (externs : List String) :
+    runProgram ρ n externs (Rules.CallParens.apply b) = runProgram ρ n externs b :=
+  Rules.CallParens.apply_refines b ρ n externs
+
+example : Rules.CallParens.apply (.mk [.callStmt (.call (.var "f") none .tuple [.table []])] none)
+    = .mk [.callStmt (.call (.var "f") none .tbl [.table []])] none := rfl
+
+/-- `remove_spaces` and `remove_comments` are the identity on the semantic (token-free) tree
+(the correspondence checks that the real rules are, on every generated program). -/
+theorem trivia_rules_identity (b : Block) :
+    Rules.Trivia.removeSpaces b = b ∧ Rules.Trivia.removeComments b = b := ⟨rfl, rfl⟩
+
+example : Refines (.mk [] none) (Rules.Trivia.removeSpaces (.mk [] none)) := refines_refl _
+
+/-! ### remove_unused_while (needs the evaluator: `EvalSound`) -/
+
+/-- `remove_unused_while`: for every evaluator that is sound on `good`, if the conditions of the
+removed loops are in `good` and allocate nothing, every error-free run of a block is a run of
+the block without those loops (same outcome, same state, same trace). -/
+theorem remove_unused_while_hook_refines {N : NumOps} {api : EvalApi} {good : Expr → Prop} (hs : EvalSound N api good)
+    (stmts : List Stmt) (last : Option Last) (hg : Rules.UnusedWhile.removedGood api good stmts) :
+    RefinesAt N (.mk stmts last) (Rules.UnusedWhile.processBlock api (.mk stmts last) ()).1 :=
+  fun call ρ k env σ σ' c h => Rules.UnusedWhile.processBlock_refines hs call ρ k env stmts last hg σ σ' c h
+
+-- non-vacuity: a proved-sound evaluator on which the rule fires, with the hypotheses met
+example :
+    (∀ N, EvalSound N litApi notInst) ∧
+    (Rules.UnusedWhile.processBlock litApi
+      (.mk [.while_ .false (.mk [.callStmt (.call (.var "f") none .tuple [])] none),
+            .callStmt (.call (.var "g") none .tuple [])] none) ()).1
+      = .mk [.callStmt (.call (.var "g") none .tuple [])] none ∧
+    Rules.UnusedWhile.removedGood litApi notInst
+      [.while_ .false (.mk [.callStmt (.call (.var "f") none .tuple [])] none),
+       .callStmt (.call (.var "g") none .tuple [])] :=
+  ⟨litApi_sound,
+   by simp [Rules.UnusedWhile.processBlock, Rules.UnusedWhile.keep, litApi, EvalApi.isTruthy, LuaKind.isTruthy],
+   by simp [Rules.UnusedWhile.removedGood, notInst, noAlloc]⟩
+
+/-- **Whole rule, every program** (timeout-relaxed: a removed loop would have exhausted a zero budget):
+for every evaluator meeting the contract `EvalTotal`, `remove_unused_while` preserves the observable
+outcome of every program unless the original exhausts its budget. (`EvalTotal` demands a state-exact
+evaluation of "pure" conditions: the real evaluator meets it on non-allocating conditions only.) -/
+theorem rule_refines_remove_unused_while_upto {api : EvalApi} (ht : ∀ N, EvalTotal N api) (b : Block) {N : NumOps}
+    (ρ : ExtOracle N) (n : Nat) (externs : List String) :
+    runProgram ρ n externs b = .timeout ∨
+      runProgram ρ n externs (Rules.UnusedWhile.apply api b) = runProgram ρ n externs b :=
+  Rules.UnusedWhile.apply_upto ht b ρ n externs
+
+example : (∀ N, EvalTotal N litApi) ∧
+    Rules.UnusedWhile.apply litApi (.mk [.localFn .loc "g" (.mk [] false none none [] []
+      (.mk [.while_ .nil (.mk [] none), .callStmt (.call (.var "emit") none .tuple [])] none))] none)
+    = .mk [.localFn .loc "g" (.mk [] false none none [] []
+      (.mk [.callStmt (.call (.var "emit") none .tuple [])] none))] none := ⟨litApi_total, rfl⟩
+
+/-! ### remove_unused_if_branch (needs the evaluator: `EvalSound`) -/
+
+/-- `remove_unused_if_branch`, statements: for every evaluator sound on `good`, if the conditions it
+decides are in `good` and the dropped ones allocate nothing, every error-free run of a block is a run of
+the block with its `if` statements simplified (removed / replaced by a `do` block / fewer branches). -/
+theorem remove_unused_if_branch_hook_refines {N : NumOps} {api : EvalApi} {good : Expr → Prop}
+    (hs : EvalSound N api good)
+    (stmts : List Stmt) (last : Option Last) (hg : Rules.UnusedIfBranch.Sound.stmtsGood api good stmts) :
+    RefinesAt N (.mk stmts last) (Rules.UnusedIfBranch.processBlock api (.mk stmts last) ()).1 :=
+  fun call ρ k env σ σ' c h =>
+    Rules.UnusedIfBranch.Sound.processBlock_refines hs call ρ k env stmts last hg σ σ' c h
+
+example :
+    (Rules.UnusedIfBranch.processBlock litApi
+      (.mk [.ifs [(.false, .mk [.callStmt (.call (.var "f") none .tuple [])] none), (.var "x", .mk [] none)]
+              (some (.mk [.callStmt (.call (.var "g") none .tuple [])] none))] none) ()).1
+      = .mk [.ifs [(.var "x", .mk [] none)] (some (.mk [.callStmt (.call (.var "g") none .tuple [])] none))] none ∧
+    Rules.UnusedIfBranch.Sound.stmtsGood litApi notInst
+      [.ifs [(.false, .mk [.callStmt (.call (.var "f") none .tuple [])] none), (.var "x", .mk [] none)]
+              (some (.mk [.callStmt (.call (.var "g") none .tuple [])] none))] :=
+  ⟨rfl, by simp [Rules.UnusedIfBranch.Sound.stmtsGood, Rules.UnusedIfBranch.Sound.condsGood, notInst, noAlloc]⟩
+
+/-- `remove_unused_if_branch`, if-expressions: `simplify_if` refines in every context. -/
+theorem remove_unused_if_branch_expr_refines {N : NumOps} {api : EvalApi} {good : Expr → Prop} (hs : EvalSound N api good)
+    (call : CallFn N) (ρ : ExtOracle N) (k : Nat) (env : Env N)
+    (c t : Expr) (elifs : List (Expr × Expr)) (e : Expr)
+    (hc : Rules.UnusedIfBranch.ExprSound.condOk api good c) (ht : good t)
+    (hel : Rules.UnusedIfBranch.ExprSound.elifsOk api good elifs) (he : good e)
+    (σ σ' : State N) (vs : List (Val N)) (h : evalE call ρ k env (.ifx c t elifs e) σ = .ok vs σ') :
+    evalE call ρ k env (Rules.UnusedIfBranch.processExpr api (.ifx c t elifs e)) σ = .ok vs σ' :=
+  Rules.UnusedIfBranch.ExprSound.simplifyIf_refines hs call ρ k env elifs e he c t hc ht hel σ σ' vs h
+
+example : Rules.UnusedIfBranch.processExpr litApi (.ifx .true (.call (.var "f") none .tuple []) [] .nil)
+    = .paren (.call (.var "f") none .tuple []) := rfl
+
+/-- **Whole rule, every program** (timeout-relaxed): for every evaluator meeting `EvalTotal`,
+`remove_unused_if_branch` — statement and if-expression rewrites, the whole visitor pass — preserves the
+observable outcome of every program unless the original exhausts its budget. -/
+theorem rule_refines_remove_unused_if_branch_upto {api : EvalApi} (ht : ∀ N, EvalTotal N api) (b : Block) {N : NumOps}
+    (ρ : ExtOracle N) (n : Nat) (externs : List String) :
+    runProgram ρ n externs b = .timeout ∨
+      runProgram ρ n externs (Rules.UnusedIfBranch.apply api b) = runProgram ρ n externs b :=
+  Rules.UnusedIfBranch.Whole.apply_upto ht b ρ n externs
+
+example : (∀ N, EvalTotal N litApi) ∧
+    Rules.UnusedIfBranch.apply litApi (.mk [.localFn .loc "g" (.mk [] false none none [] []
+      (.mk [.ifs [(.nil, .mk [.callStmt (.call (.var "f") none .tuple [])] none)]
+          (some (.mk [.callStmt (.call (.var "emit") none .tuple [])] none))] none))] none)
+    = .mk [.localFn .loc "g" (.mk [] false none none [] []
+      (.mk [.doBlock (.mk [.callStmt (.call (.var "emit") none .tuple [])] none)] none))] none := ⟨litApi_total, rfl⟩
+
+/-- the static analysis `can_return_multiple_values` is sound for the reference semantics -/
+theorem can_return_multiple_values_sound {N : NumOps} (call : CallFn N) (ρ : ExtOracle N) (k : Nat) (env : Env N)
+    (e : Expr) (hm : canReturnMultiple e = false) (hi : notInst e) (σ σ' : State N) (vs : List (Val N))
+    (h : evalE call ρ k env e σ = .ok vs σ') : vs = [first vs] :=
+  canReturnMultiple_sound call ρ k env e hm hi σ σ' vs h
+
+example : canReturnMultiple (.bin .and (.call (.var "f") none .tuple []) .vararg) = false ∧
+    notInst (.bin .and (.call (.var "f") none .tuple []) .vararg) := ⟨rfl, trivial⟩
+
+/-! ### the evaluator contract for the C08 model -/
+
+/-- The evaluator the driver runs (`c08Api`: property C08's model of `Evaluator`) meets the contract
+`EvalSound` the rule lemmas above assume, on C08's proved region `H8` (findings F1–F4 excluded), for every
+number system `N` and evaluator primitives `E` that agree (`C08.Agree`): `truthy`, `str`, `single` are
+C08's theorems `truthy_sound`, `evaluate_sound_partial`, `single_sound`, and `pure` (a side-effect-free,
+non-allocating evaluation leaves the state exactly untouched) is `pure_sound_noalloc`. So every
+`EvalSound`-conditional theorem of this file holds for the evaluator model the driver executes. -/
+theorem evaluator_contract_from_C08 {N : NumOps} {E : Evaluator.EvalOps N} (A : C08.Agree N E) :
+    EvalSound N (c08Api N E) (fun e => C08.h8 E e = true) :=
+  c08_sound A
+
+-- non-vacuity of `Agree` and of the region: C08's toy instance agrees, and `not nil` is inside `H8` and decided
+example : C08.Agree C08.toyN C08.toyE ∧ C08.h8 C08.toyE (.un .not .nil) = true ∧
+    (c08Api C08.toyN C08.toyE).isTruthy (.un .not .nil) = some true :=
+  ⟨C08.toy_agree, rfl, rfl⟩
+
+/-- `remove_unused_while` with the evaluator model the driver executes: for agreeing `N`, `E`, when the removed
+loops' conditions are inside `H8` and allocate nothing, the block hook refines. -/
+theorem remove_unused_while_hook_refines_C08 {N : NumOps} {E : Evaluator.EvalOps N} (A : C08.Agree N E)
+    (stmts : List Stmt) (last : Option Last)
+    (hg : Rules.UnusedWhile.removedGood (c08Api N E) (fun e => C08.h8 E e = true) stmts) :
+    RefinesAt N (.mk stmts last) (Rules.UnusedWhile.processBlock (c08Api N E) (.mk stmts last) ()).1 :=
+  remove_unused_while_hook_refines (c08_sound A) stmts last hg
+
+-- non-vacuity: with C08's toy instance, `while 1 > 2 do f() end; g()` loses its loop and meets the hypotheses
+example :
+    (Rules.UnusedWhile.processBlock (c08Api C08.toyN C08.toyE)
+      (.mk [.while_ (.bin .gt (.num 1) (.num 2)) (.mk [.callStmt (.call (.var "f") none .tuple [])] none),
+            .callStmt (.call (.var "g") none .tuple [])] none) ()).1
+      = .mk [.callStmt (.call (.var "g") none .tuple [])] none ∧
+    Rules.UnusedWhile.removedGood (c08Api C08.toyN C08.toyE) (fun e => C08.h8 C08.toyE e = true)
+      [.while_ (.bin .gt (.num 1) (.num 2)) (.mk [.callStmt (.call (.var "f") none .tuple [])] none),
+       .callStmt (.call (.var "g") none .tuple [])] := by
+  refine ⟨rfl, ?_⟩
+  simp only [Rules.UnusedWhile.removedGood, and_true]
+  intro _
+  exact ⟨by decide, by decide⟩
+
+/-- `remove_unused_if_branch` (statements) with the evaluator model the driver executes. -/
+theorem remove_unused_if_branch_hook_refines_C08 {N : NumOps} {E : Evaluator.EvalOps N} (A : C08.Agree N E)
+    (stmts : List Stmt) (last : Option Last)
+    (hg : Rules.UnusedIfBranch.Sound.stmtsGood (c08Api N E) (fun e => C08.h8 E e = true) stmts) :
+    RefinesAt N (.mk stmts last) (Rules.UnusedIfBranch.processBlock (c08Api N E) (.mk stmts last) ()).1 :=
+  remove_unused_if_branch_hook_refines (c08_sound A) stmts last hg
+
+example : C08.Agree C08.toyN C08.toyE ∧
+    Rules.UnusedIfBranch.Sound.stmtsGood (c08Api C08.toyN C08.toyE) (fun e => C08.h8 C08.toyE e = true)
+      [.ifs [(.un .not .true, .mk [.callStmt (.call (.var "f") none .tuple [])] none)] none] := by
+  refine ⟨C08.toy_agree, ?_⟩
+  simp only [Rules.UnusedIfBranch.Sound.stmtsGood, Rules.UnusedIfBranch.Sound.condsGood, and_true]
+  intro _
+  exact ⟨by decide, fun _ => by decide⟩
+
+/-! ### convert_index_to_field (finding F6) -/
+
+open Rules.ConvertIndexToField in
+/-- the full claim: for every sound evaluator, `t[key]` ↦ `t.name` refines in every context,
+whenever the rule converts the key -/
+def convert_index_to_field_full : Prop :=
+  ∀ (api : EvalApi) (good : Expr → Prop), (∀ N, EvalSound N api good) →
+  ∀ (p k : Expr) (name : String), convertToField api k = some name → good k →
+  ∀ (N : NumOps) (call : CallFn N) (ρ : ExtOracle N) (n : Nat) (env : Env N) (σ σ' : State N) (vs : List (Val N)),
+    evalE call ρ n env (.index p k) σ = .ok vs σ' →
+    evalE call ρ n env (convertIndex api (.index p k)) σ = .ok vs σ'
+
+open Rules.Witness in
+/-- F6: it is false — the rule never asks whether the key has side effects.
+Witness: `("")[{f()} and "a"]` ↦ `("").a` loses the external call `f()`. -/
+theorem convert_index_to_field_full_false : ¬ convert_index_to_field_full := by
+  intro hfull
+  have hconv : Rules.ConvertIndexToField.convertToField kApi K = some "a" := by decide
+  have h1 : traceLen (evalE call0 ρ0 1 env0 (.index (.str []) K) σ0) = 1 := by decide
+  have h2 : traceLen (evalE call0 ρ0 1 env0 (.field (.str []) "a") σ0) = 0 := by decide
+  cases hr : evalE call0 ρ0 1 env0 (.index (.str []) K) σ0 with
+  | timeout => simp [hr, traceLen] at h1
+  | err v σ1 => simp [hr, traceLen] at h1
+  | ok vs σ1 =>
+    have := hfull kApi notInst kApi_sound (.str []) K "a" hconv trivial
+      unitOps call0 ρ0 1 env0 σ0 σ1 vs hr
+    simp only [Rules.ConvertIndexToField.convertIndex, hconv] at this
+    rw [hr] at h1; rw [this] at h2
+    simp only [traceLen] at h1 h2
+    omega
+
+/-- the partial claim that IS true: under `H` — the converted key has no side effects (F6
+excluded) and allocates nothing — `t[key]` ↦ `t.name` refines in expression position … -/
+theorem convert_index_to_field_partial {N : NumOps} {api : EvalApi} {good : Expr → Prop} (hs : EvalSound N api good)
+    {p k : Expr} {name : String} (hk : Rules.ConvertIndexToField.Sound.KeyOk api good k name)
+    (call : CallFn N) (ρ : ExtOracle N) (n : Nat) (env : Env N) (σ σ' : State N) (vs : List (Val N))
+    (h : evalE call ρ n env (.index p k) σ = .ok vs σ') :
+    evalE call ρ n env (Rules.ConvertIndexToField.convertIndex api (.index p k)) σ = .ok vs σ' :=
+  Rules.ConvertIndexToField.Sound.index_refines hs hk call ρ n env σ σ' vs h
+
+/-- … in assignment-target position … -/
+theorem convert_index_to_field_target_partial {N : NumOps} {api : EvalApi} {good : Expr → Prop} (hs : EvalSound N api good)
+    {p k : Expr} {name : String} (hk : Rules.ConvertIndexToField.Sound.KeyOk api good k name)
+    (call : CallFn N) (ρ : ExtOracle N) (n : Nat) (env : Env N) (σ σ' : State N) (tg : Target N)
+    (h : evalTarget call ρ n env (.index p k) σ = .ok tg σ') :
+    evalTarget call ρ n env (Rules.ConvertIndexToField.convertIndex api (.index p k)) σ = .ok tg σ' :=
+  Rules.ConvertIndexToField.Sound.target_refines hs hk call ρ n env σ σ' tg h
+
+/-- … and for a `[key] = value` entry of a table constructor. -/
+theorem convert_index_to_field_entry_partial {N : NumOps} {api : EvalApi} {good : Expr → Prop} (hs : EvalSound N api good)
+    {k v : Expr} {name : String} (hk : Rules.ConvertIndexToField.Sound.KeyOk api good k name)
+    (call : CallFn N) (ρ : ExtOracle N) (n : Nat) (env : Env N) (t i : Nat) (rest : List Entry)
+    (σ σ' : State N) (h : evalEntries call ρ n env t i (.keyed k v :: rest) σ = .ok () σ') :
+    evalEntries call ρ n env t i (Rules.ConvertIndexToField.convertEntry api (.keyed k v) :: rest) σ = .ok () σ' :=
+  Rules.ConvertIndexToField.Sound.entry_refines hs hk call ρ n env t i rest σ σ' h
+
+-- non-vacuity: `t["a"]` with the proved-sound `litApi` satisfies `H` and is converted
+example : Rules.ConvertIndexToField.Sound.KeyOk litApi notInst (.str [97]) "a" ∧
+    Rules.ConvertIndexToField.convertIndex litApi (.index (.var "t") (.str [97])) = .field (.var "t") "a" :=
+  ⟨⟨by decide, trivial, rfl, rfl⟩, rfl⟩
+
+/-! ### compute_expression (finding F5) -/
+
+/-- the full claim: for every sound evaluator the rewritten expression refines the original -/
+def compute_expression_full : Prop :=
+  ∀ (api : EvalApi) (good : Expr → Prop), (∀ N, EvalSound N api good) → ∀ (e : Expr),
+  ∀ (N : NumOps) (call : CallFn N) (ρ : ExtOracle N) (n : Nat) (env : Env N) (σ σ' : State N) (vs : List (Val N)),
+    evalE call ρ n env e σ = .ok vs σ' →
+    evalE call ρ n env (Rules.ComputeExpression.processExpr api e) σ = .ok vs σ'
+
+open Rules.Witness in
+/-- F5: it is false. Witness: `true and ...` (always one value) ↦ `...` (here two values). -/
+theorem compute_expression_full_false : ¬ compute_expression_full := by
+  intro hfull
+  have hp : Rules.ComputeExpression.processExpr litApi (.bin .and .true .vararg) = .vararg := rfl
+  have := hfull litApi notInst litApi_sound (.bin .and .true .vararg) unitOps call0 ρ0 1 ⟨[], [.nil, .nil]⟩ σ0 σ0 [.nil]
+    (by simp [evalE, Res.bind, first, Val.truthy])
+  rw [hp] at this
+  simp [evalE] at this
+
+/-- the operand-selection steps of the rule, under `H`: the left operand's truthiness is known,
+it has no side effects and allocates nothing, and the selected operand is single-valued
+(`multi = false`, i.e. neither a call nor `...` — F5 excluded): `a and b` ↦ `b` when `a` is truthy -/
+theorem compute_expression_and_true_partial {N : NumOps} {api : EvalApi} {good : Expr → Prop} (hs : EvalSound N api good)
+    (l r : Expr) (hg : good l) (ht : api.isTruthy l = some true) (hse : api.hasSideEffects l = false)
+    (hna : noAlloc l = true)
+    (call : CallFn N) (ρ : ExtOracle N) (n : Nat) (env : Env N) (σ σ' : State N) (vs : List (Val N))
+    (hsingle : ∀ (σ1 σ2 : State N) (ws : List (Val N)), evalE call ρ n env r σ1 = .ok ws σ2 → ws = [first ws])
+    (h : evalE call ρ n env (.bin .and l r) σ = .ok vs σ') :
+    evalE call ρ n env r σ = .ok vs σ' := by
+  simp only [evalE] at h
+  cases hl : evalE call ρ n env l σ with
+  | timeout => simp [hl, Res.bind] at h
+  | err v σ1 => simp [hl, Res.bind] at h
+  | ok ls σ1 =>
+    have h1 := hs.truthy l true hg ht call ρ n env σ σ1 ls hl
+    have h2 := hs.pure l hg hse hna call ρ n env σ σ1 ls hl
+    subst h2
+    simp only [hl, Res.bind, h1, if_true] at h
+    cases hr : evalE call ρ n env r σ1 with
+    | timeout => simp [hr] at h
+    | err v σ2 => simp [hr] at h
+    | ok ws σ2 =>
+      simp [hr] at h
+      rw [hsingle σ1 σ2 ws hr, h.1, h.2]
+
+/-- `a or b` ↦ `b` when `a` is falsy -/
+theorem compute_expression_or_false_partial {N : NumOps} {api : EvalApi} {good : Expr → Prop} (hs : EvalSound N api good)
+    (l r : Expr) (hg : good l) (ht : api.isTruthy l = some false) (hse : api.hasSideEffects l = false)
+    (hna : noAlloc l = true)
+    (call : CallFn N) (ρ : ExtOracle N) (n : Nat) (env : Env N) (σ σ' : State N) (vs : List (Val N))
+    (hsingle : ∀ (σ1 σ2 : State N) (ws : List (Val N)), evalE call ρ n env r σ1 = .ok ws σ2 → ws = [first ws])
+    (h : evalE call ρ n env (.bin .or l r) σ = .ok vs σ') :
+    evalE call ρ n env r σ = .ok vs σ' := by
+  simp only [evalE] at h
+  cases hl : evalE call ρ n env l σ with
+  | timeout => simp [hl, Res.bind] at h
+  | err v σ1 => simp [hl, Res.bind] at h
+  | ok ls σ1 =>
+    have h1 := hs.truthy l false hg ht call ρ n env σ σ1 ls hl
+    have h2 := hs.pure l hg hse hna call ρ n env σ σ1 ls hl
+    subst h2
+    simp only [hl, Res.bind, h1] at h
+    cases hr : evalE call ρ n env r σ1 with
+    | timeout => simp [hr] at h
+    | err v σ2 => simp [hr] at h
+    | ok ws σ2 =>
+      simp [hr] at h
+      rw [hsingle σ1 σ2 ws hr, h.1, h.2]
+
+/-- `a and b` ↦ `a` when `a` is falsy, `a or b` ↦ `a` when `a` is truthy (`a` single-valued) -/
+theorem compute_expression_left_partial {N : NumOps} {api : EvalApi} {good : Expr → Prop} (hs : EvalSound N api good)
+    (op : BinOp) (l r : Expr) (b : Bool) (hop : (op = .and ∧ b = false) ∨ (op = .or ∧ b = true))
+    (hg : good l) (ht : api.isTruthy l = some b)
+    (call : CallFn N) (ρ : ExtOracle N) (n : Nat) (env : Env N) (σ σ' : State N) (vs : List (Val N))
+    (hsingle : ∀ (σ1 σ2 : State N) (ws : List (Val N)), evalE call ρ n env l σ1 = .ok ws σ2 → ws = [first ws])
+    (h : evalE call ρ n env (.bin op l r) σ = .ok vs σ') :
+    evalE call ρ n env l σ = .ok vs σ' := by
+  rcases hop with ⟨rfl, rfl⟩ | ⟨rfl, rfl⟩
+  all_goals
+    simp only [evalE] at h
+    cases hl : evalE call ρ n env l σ with
+    | timeout => simp [hl, Res.bind] at h
+    | err v σ1 => simp [hl, Res.bind] at h
+    | ok ls σ1 =>
+      have h1 := hs.truthy l _ hg ht call ρ n env σ σ1 ls hl
+      simp [hl, Res.bind, h1] at h
+      rw [hsingle σ σ1 ls hl, h.1, h.2]
+
+/-- `compute_expression`, the whole hook: under `H` (`okSpine`: folded / dropped expressions are in the sound
+region and allocate nothing; no `and`/`or` is replaced by a call or `...` — F5 excluded), for every evaluator
+that is sound (`EvalSound`) and whose `to_expression` is sound (`FoldSound`), `process_expression` refines
+in every context. -/
+theorem compute_expression_partial {N : NumOps} {api : EvalApi} {good : Expr → Prop} (hs : EvalSound N api good)
+    (hf : Rules.ComputeExpression.Sound.FoldSound N api good)
+    (call : CallFn N) (ρ : ExtOracle N) (k : Nat) (env : Env N)
+    (e : Expr) (hok : Rules.ComputeExpression.Sound.okSpine api good e) (σ σ' : State N) (vs : List (Val N))
+    (h : evalE call ρ k env e σ = .ok vs σ') :
+    evalE call ρ k env (Rules.ComputeExpression.processExpr api e) σ = .ok vs σ' :=
+  Rules.ComputeExpression.Sound.processExpr_refines hs hf call ρ k env e hok σ σ' vs h
+
+-- non-vacuity: `nil or (true and x)` ↦ `true and x`, `H` holds, evaluator instance proved sound
+example : (∀ N, Rules.ComputeExpression.Sound.FoldSound N litApi notInst) ∧
+    Rules.ComputeExpression.processExpr litApi (.bin .or .nil (.bin .and .true (.var "x")))
+      = .bin .and .true (.var "x") ∧
+    Rules.ComputeExpression.Sound.okSpine litApi notInst (.bin .or .nil (.bin .and .true (.var "x"))) :=
+  ⟨Rules.ComputeExpression.Sound.litApi_foldSound, rfl, by
+    simp [Rules.ComputeExpression.Sound.okSpine, litApi, EvalApi.isTruthy, LuaKind.isTruthy, notInst, noAlloc,
+      Rules.ComputeExpression.processExpr, Rules.ComputeExpression.multi]⟩
+
+-- non-vacuity: `true and x` ↦ `x` with the proved-sound `litApi`; `x` is single-valued
+example : Rules.ComputeExpression.processExpr litApi (.bin .and .true (.var "x")) = .var "x" ∧
+    litApi.isTruthy .true = some true ∧ litApi.hasSideEffects .true = false ∧ noAlloc .true = true ∧
+    Rules.ComputeExpression.multi (.var "x") = false := ⟨rfl, rfl, rfl, rfl, rfl⟩
+
+/-! ### remove_nil_declaration (finding F24) -/
+
+/-- the full claim: the rewritten declaration has exactly the denotation of the original -/
+def remove_nil_declaration_full : Prop :=
+  ∀ (api : EvalApi) (good : Expr → Prop), (∀ N, EvalSound N api good) → ∀ (s : Stmt),
+  ∀ (N : NumOps) (call : CallFn N) (ρ : ExtOracle N) (n : Nat) (env : Env N) (σ σ' : State N) (c : Ctl N),
+    execS call ρ n env s σ = .ok c σ' →
+    execS call ρ n env (Rules.NilDeclaration.processLocal api s) σ = .ok c σ'
+
+/-- observable part of a declaration's result: the value of variable `a` afterwards -/
+def valueOfA : Res Rules.Witness.unitOps (Ctl Rules.Witness.unitOps) → Option Bool
+  | .ok (.next env) σ => match lookupVar env "a" σ with
+    | .nil => some false
+    | _ => some true
+  | _ => none
+
+open Rules.Witness in
+/-- F24: it is false. Witness: `local a, a = nil, 1` ↦ `local a, a = 1`: afterwards `a` is `nil`
+instead of `1`. -/
+theorem remove_nil_declaration_full_false : ¬ remove_nil_declaration_full := by
+  intro hfull
+  let s : Stmt := .localAssign .loc [.mk "a" none, .mk "a" none] [.nil, .num 0]
+  have hp : Rules.NilDeclaration.processLocal litApi s
+      = .localAssign .loc [.mk "a" none, .mk "a" none] [.num 0] := rfl
+  have h1 : valueOfA (execS call0 ρ0 1 env0 s σ0) = some true := by decide
+  have h2 : valueOfA (execS call0 ρ0 1 env0 (.localAssign .loc [.mk "a" none, .mk "a" none] [.num 0]) σ0) = some false := by
+    decide
+  cases hr : execS call0 ρ0 1 env0 s σ0 with
+  | timeout => simp [hr, valueOfA] at h1
+  | err v σ1 => simp [hr, valueOfA] at h1
+  | ok c σ1 =>
+    have := hfull litApi notInst litApi_sound s unitOps call0 ρ0 1 env0 σ0 σ1 c hr
+    rw [hp] at this
+    rw [hr] at h1; rw [this] at h2
+    simp [h1] at h2
+
+/-- the one shape of the rewrite that is exact as it stands (no variable moves, no cell is renumbered):
+`local x = nil` ↦ `local x` has exactly the same denotation. Every other shape moves variables and so
+permutes cell numbers — equal only up to a heap bijection (not available in the exact framework). -/
+theorem remove_nil_declaration_single_exact (api : EvalApi) (n : TName) {N : NumOps} (call : CallFn N)
+    (ρ : ExtOracle N) (k : Nat) (env : Env N) (σ : State N) :
+    execS call ρ k env (Rules.NilDeclaration.processLocal api (.localAssign .loc [n] [.nil])) σ
+      = execS call ρ k env (.localAssign .loc [n] [.nil]) σ := by
+  have : Rules.NilDeclaration.processLocal api (.localAssign .loc [n] [.nil]) = .localAssign .loc [n] [] := by
+    simp [Rules.NilDeclaration.processLocal, Rules.NilDeclaration.isNil, Rules.NilDeclaration.nilIndices,
+      Rules.NilDeclaration.removeAt, Rules.NilDeclaration.wrapLast]
+  rw [this]
+  simp [execS, evalEs, evalE, Res.bind, bindLocals, first]
+
+example : Rules.NilDeclaration.processLocal litApi (.localAssign .loc [.mk "x" none] [.nil])
+    = .localAssign .loc [.mk "x" none] [] := rfl
 
 end DarkluaModel.C01
